@@ -7,16 +7,39 @@ from vlib.props import C02
 LEVEL = "proof"
 MANIFEST = dict(
     category="proof",
-    text="OPN2::noteOn (extracted on every run). PROVED for every double p and every cached instrument (contract, loop contracts): the call returns; it writes nothing or exactly DT/MUL of the four operators, A4 (block <= 7, F-number high bits) before A0 (F-number low), key-on of its own channel last; detune nibbles preserved; no float overflow, NaN or undefined float-to-int conversion. CHECKED ON A GRID (bounded, native execution of the same extracted text): for both clock families and every p = k/64 semitone from 0 to 116 (6.6 kHz, top of the multiplier-free range) the written block/F-number is within one F-number step of 440*2^((p-69)/12)*144*2^21/clock and non-decreasing in p. Constant lemma (exact rational arithmetic on the constants read from the source): the three constants of the source (0.057762265, 321.88557, 309.12412) deviate from ln2/12 and 440*2^(-69/12)*144*2^21/clock by less than half an F-number step over the whole key range (128*|dk| + |dcoef|/coef < 1/4094; measured 6e-9 + 1.1e-5).",
+    text="OPN2::noteOn (extracted on every run). PROVED for every double p and every cached instrument (contract, loop contracts): the call returns; it writes nothing or exactly DT/MUL of the four operators, A4 (block <= 7, F-number high bits) before A0 (F-number low), key-on of its own channel last; detune nibbles preserved; no float overflow, NaN or undefined float-to-int conversion. CHECKED ON A GRID (bounded, native execution of the same extracted text): for both clock families and every p = k/64 semitone from 0 to 116 (6.6 kHz, top of the multiplier-free range) the written block/F-number is within one F-number step of 440*2^((p-69)/12)*144*2^21/clock and non-decreasing in p. Caller side (the Upd_Pitch statement range of OPNMIDIplay::noteUpdate, extracted, rule R12): PROVED for every channel state - exactly one noteOn to the voice's own chip channel, none for a note held only by the pedal, vibrato applied exactly when a level is set and the note's delay has passed, with the channel's own phase, and with no bend, offset, vibrato or second voice the tone is the key tone; CHECKED ON A GRID (bounded, native execution of the same extracted text, 362880 cases): the tone is bit for bit key tone + (bend * range + note offset [+ vibrato * depth * sin]) + second-voice fine tune. Constant lemma (exact rational arithmetic on the constants read from the source): the three constants of the source (0.057762265, 321.88557, 309.12412) deviate from ln2/12 and 440*2^(-69/12)*144*2^21/clock by less than half an F-number step over the whole key range (128*|dk| + |dcoef|/coef < 1/4094; measured 6e-9 + 1.1e-5).",
     design_ref="DESIGN.md A.1 / C10",
-    level_note="NOT covered: the composition p = key + bend*range + offset + vibrato in noteUpdate (list code), 're-pitches every sounding note at once', tones between grid points (the nearest-step relation for ALL doubles would need reasoning about exp() and rounding that was not attempted), the multiplier range above 6.6 kHz. exp(): in the contract group any double may come back; the sweep uses libm.",
+    level_note="NOT covered: 're-pitches every sounding note at once' (noteUpdateAll iterates a pl_list), the glide/portamento update of currentTone, the tone formula for ALL doubles (CBMC does not finish the equality of two floating-point evaluations; it is checked on a grid instead), tones between grid points (the nearest-step relation for ALL doubles would need reasoning about exp() and rounding that was not attempted), the multiplier range above 6.6 kHz. exp(): in the contract group any double may come back; the sweep uses libm.",
     technique="CBMC code contracts with loop contracts on the extracted member function; bounded native sweep of the same text; exact-arithmetic constant lemma")
 TRUSTED = list(C02.TRUSTED) + ["libm exp/pow of the host in the native sweep"]
-ASSUMPTIONS = ["grid of 1/64 semitone for the nearest-step and monotonicity checks (bounded)"]
+ASSUMPTIONS = ["grid of 1/64 semitone for the nearest-step and monotonicity checks (bounded)", "pitch range groups: channel index fixed per group (0, 9, 15); finite operands (|key tone| <= 1e6, |bend range|, |vibrato depth| <= 1e3, |phase| <= 1e12, bend in -8192..8191); no note hook installed; find_user by a ghost entry; libm sin = any value in [-1,1]", "tone formula of the pitch range: bounded native grid (362880 cases), not deduction"]
+
+
+from vlib import extract_play
+PITCHRANGE = dict(file="src/opnmidi_midiplay.cpp", name="OPNMIDIplay::noteUpdate", cls=None, rename="noteUpdate_pitch", must=["R12", "R2"],
+                  cut_from=r"\n[ \t]*if\(props_mask & Upd_Pitch\)\n", cut_at=r"\n    \}\n\n    if\(info\.chip_channels_count == 0\)", epilogue="    return;",
+                  params_override="size_t midCh, uint16_t c, unsigned props_mask, MIDIchannel *m_midiChannels, const Phys *ins__p, const OpnInstMeta *ains__p, NoteInfo *info__p, "
+                                  "double currentTone, int16_t noteTone, size_t midiins, uint8_t vol, MIDIEventHooks *hooks__p",
+                  ref_params=["ins", "ains", "info", "hooks"], sig_post=[(r"^bool$", "void")],
+                  post=[(r"(?:OpnChannel::)?users_iterator d = (?:g_play\.)?m_chipChannels\[c\]\.find_user\(my_loc\);", "LocationData *d = find_user_c(c);   /* R7: iterator -> cell pointer */"),
+                        (r"d\.is_end\(\)", "(d == NULL)"), (r"d->value\.", "d->"), (r"(?:OpnChannel::LocationData::)?Sustain_None", "Sustain_None"),
+                        (r"ins\.ains == ains\.op\[1\]", "spec_OpnTimbre_eq(&ins.ains, &ains.op[1])   /* operator== of the byte-comparable packed struct */"),
+                        (r"(?:OpnInstMeta::)?Flag_Pseudo8op", "Flag_Pseudo8op"), (r"synth\.noteOn\(", "noteOn_record(")])
+
+
+def _extract_pitch(wd):
+    return extract_play.emit(wd, [PITCHRANGE])
 
 
 def groups(tier):
-    return [g for g in C02.groups(tier) if g.name in ("noteOn_contract", "noteOff_contract")]
+    gs = [g for g in C02.groups(tier) if g.name in ("noteOn_contract", "noteOff_contract")]
+    for ch in (0, 9, 15):
+      gs.append(Group("noteUpdate_pitch_range_contract_ch%d" % ch, "harness/pitch_h.c", "h_noteUpdate_pitch", enforce="noteUpdate_pitch", defines=["PITCH_CH=%d" % ch],
+                    extract=_extract_pitch, object_bits=9, required=[r"postcondition", r"assigns"], timeout=600,
+                    checks=["--bounds-check", "--pointer-check", "--div-by-zero-check", "--signed-overflow-check", "--undefined-shift-check", "--no-malloc-may-fail", "--conversion-check", "--float-overflow-check", "--nan-check"],
+                    funcs=["OPNMIDIplay::noteUpdate (range: the Upd_Pitch branch)"],
+                    note="caller side of OPN2::noteOn: the tone is key tone + bend*range + note offset [+ vibrato] + second-voice fine tune; a pedal-held note is not bent"))
+    return gs
 
 
 def extra(tier, workroot):
@@ -77,4 +100,30 @@ def extra(tier, workroot):
         out.append(dict(name=name, status="violated", detail=line, replay=path, reproduced=True))
     else:
         out.append(dict(name=name, status="tool", detail="unexpected output rc=%s %s %s" % (r.returncode, line, r.stderr[-200:])))
+    # ---- bounded native sweep of the extracted Upd_Pitch range of noteUpdate (tone formula)
+    name = "pitch_composition_sweep_native"
+    wd2 = tempfile.mkdtemp(prefix="c10p_", dir=workroot)
+    try:
+        _extract_pitch(wd2)
+        from vlib import env as _env
+        if not os.path.exists(os.path.join(wd2, "verif_types.h")):
+            _env.write_types(wd2)
+    except ExtractionError as e:
+        return out + [dict(name=name, status="tool", detail="extraction broke: %s" % e)]
+    exe = os.path.join(wd2, "psweep")
+    r = subprocess.run(["gcc", "-O1", "-ffp-contract=off", "-o", exe, os.path.join(VERIF, "harness/c10_pitch_sweep.c"), "-I" + wd2, "-I" + os.path.join(VERIF, "contracts"), "-I" + os.path.join(VERIF, "harness"),
+                        "-I" + os.path.join(REPO, "include"), "-I" + os.path.join(REPO, "src"), "-DLIBOPNMIDI_VERIF", "-lm"], capture_output=True, text=True)
+    if r.returncode != 0:
+        return out + [dict(name=name, status="tool", detail="native compile failed: " + r.stderr[-900:])]
+    r = subprocess.run([exe], capture_output=True, text=True, timeout=300)
+    line = (r.stdout.strip().splitlines() or [""])[-1]
+    if r.returncode == 0 and line.startswith("SWEEP ok"):
+        out.append(dict(name=name, status="ok", obligations=1, discharged=1, evaluations=int(line.split("evaluations=")[1]), bounded="grid: 7 bends x 5 ranges x 4 offsets x 6 key tones x 4 vibrato levels x 3 sources x second-voice cases x user-entry cases",
+                        detail=line, method="native execution of the extracted Upd_Pitch range of noteUpdate (bounded enumeration, not deduction)"))
+    elif "SWEEP VIOLATION" in line:
+        path = os.path.join(VERIF, "replays", "C10"); os.makedirs(path, exist_ok=True); path = os.path.join(path, "pitch_sweep.json")
+        json.dump(dict(property="C10", obligation=name, failing_input=line, native_replay=dict(reproduced=True)), open(path, "w"), indent=1)
+        out.append(dict(name=name, status="violated", detail=line, replay=path, reproduced=True))
+    else:
+        out.append(dict(name=name, status="tool", detail="unexpected output rc=%s %s %s" % (r.returncode, line, r.stderr[-300:])))
     return out
